@@ -14,6 +14,7 @@ node-wide state (InfluxQL createFn cache, alert level expressions) get their own
 import Kap.Proofs.C06
 import Kap.Proofs.C06Demux
 import Kap.Proofs.C06Iql
+import Kap.Proofs.C06Slot
 namespace Kap.Props.C06
 open Kap.C06
 
@@ -412,6 +413,61 @@ streams with barriers, buffered/unbuffered batches and deletions -/
 theorem recording_node_isolated (items : List (Item Nat)) (g : GroupID) :
     (runNode recNode () items).filter (fun o => o.1 == g) = runNode recNode () (items.filter (fun it => it.group == g)) :=
   demux_noninterference_pure _ items g
+
+/-! ## Slot tables next to the demultiplexer's map (httpOut: n.indexes / n.result.Series / httpOutGroup.idx)
+
+Added after seeded change C06-8 (deleteGroup splicing first and renumbering the same range afterwards) went unseen: no
+generated history sent a DeleteGroup to a node that keeps its own per-group table. -/
+
+/-- Full statement, in the property's own terms: after EVERY history of points and group deletions, the rows httpOut
+serves under a group's tags are the rows it serves when that group's operations are fed alone. Stated, not proved here
+(the content half of the invariant - slot k holds the last row of the group numbered k - is tied by the correspondence
+runs and the relational clause on the real node only); the numbering half is `slot_numbering_invariant`. -/
+def httpout_isolated_stmt : Prop :=
+  ∀ (h : List Slot.Op) (g : String),
+    Slot.servedFor (Slot.run h) g = Slot.servedFor (Slot.run (h.filter (fun o => o.group == g))) g
+
+/-- and against the history spec: what is served for g is g's last value since its last deletion -/
+def httpout_serves_last_row_stmt : Prop :=
+  ∀ (h : List Slot.Op) (g : String), Slot.servedFor (Slot.run h) g = Slot.expectFor g h
+
+/-- The numbering half of the slot-table invariant, for EVERY history (any number of groups, deletions in any
+position, re-creations): the receiver at position k of n.indexes carries idx k and Series has exactly one entry per
+receiver - so `deleteGroup(g.idx)` removes g's own receiver and g's own row, and no update is ever out of range. -/
+theorem slot_numbering_invariant (h : List Slot.Op) : Slot.Numbered (Slot.run h) :=
+  Slot.numbered_foldl h _ Slot.numbered_empty
+
+/-- every live group's idx is a valid slot: `updateResultWithRow` never takes its out-of-range branch -/
+theorem slot_index_in_range (h : List Slot.Op) (g : String) (i : Nat) (hf : Slot.find (Slot.run h) g = some i) :
+    i < (Slot.run h).series.length := by
+  have hn := slot_numbering_invariant h
+  rw [hn.2]
+  exact Slot.find_lt _ g i hn hf
+
+/-- Counterexample about the deleteGroup that splices first and renumbers indexes[idx+1:] of the SPLICED slice: after
+A, B, C are created and A (the first slot) is deleted, B keeps number 1 = C's slot; B's next row lands there, C
+overwrites it, and B is served with its stale row 2 instead of 4 - what is served for B depends on whether A existed.
+The numbering invariant fails in the same state. -/
+theorem slot_splice_first_interferes :
+    ∃ (h : List Slot.Op) (g : String),
+      Slot.servedFor (Slot.runWith Slot.deleteAtSplicedFirst h) g
+        ≠ Slot.servedFor (Slot.runWith Slot.deleteAtSplicedFirst (h.filter (fun o => o.group == g))) g ∧
+      ¬ Slot.Numbered (Slot.runWith Slot.deleteAtSplicedFirst h) :=
+  ⟨[.point "A" 1, .point "B" 2, .point "C" 3, .delete "A", .point "B" 4, .point "C" 5], "B", by decide, by
+    unfold Slot.Numbered; decide⟩
+
+/-- regression witness: the same history, and deletions of the first, a middle and the newest slot followed by more
+rows of every survivor and a re-creation, through the code as it is: every group is served its own last row -/
+theorem slot_table_regression_witness :
+    let h1 : List Slot.Op := [.point "A" 1, .point "B" 2, .point "C" 3, .delete "A", .point "B" 4, .point "C" 5]
+    let h2 : List Slot.Op := [.point "A" 1, .point "B" 2, .point "C" 3, .point "D" 4, .delete "B", .point "C" 5, .point "D" 6,
+      .point "A" 7, .delete "D", .point "A" 8, .point "C" 9, .point "B" 10, .delete "A", .point "C" 11, .point "B" 12]
+    Slot.served (Slot.run h1) = [("B", 4), ("C", 5)] ∧
+    (∀ g ∈ ["A", "B", "C", "D"], Slot.servedFor (Slot.run h2) g = Slot.expectFor g h2 ∧
+      Slot.servedFor (Slot.run h2) g = Slot.servedFor (Slot.run (h2.filter (fun o => o.group == g))) g) ∧
+    Slot.served (Slot.run h2) = [("C", 11), ("B", 12)] := by decide
+
+example : Slot.find (Slot.run [.point "A" 1, .point "B" 2, .delete "A"]) "B" = some 0 := by decide
 
 /-! ### Non-vacuity -/
 
